@@ -434,3 +434,48 @@ func verif_C05_data_equiv() {
 	}
 	verifAssert(verifGoroutinesAlive() == 0, "C05.equiv-no-goroutine-left")
 }
+
+// verif_C05_size_syntax: the chunk size is 1*DIGIT, decimal (RFC 3030). Sizes
+// written with leading zeros frame exactly the declared number of octets;
+// anything that is not all digits (0x.., 0o.., 0b.., digit separators, a sign)
+// is refused with 501 and delivers nothing. The chunk looks like a command, so
+// that a wrong count shows as an extra or a missing reply.
+func verif_C05_size_syntax() {
+	verifPreemptBound(0)
+	sizes := []string{"10", "010", "0010", "08", "012", "0x0A", "0XA", "0o12", "0b1010", "1_0", "+10", "1e1"}
+	decimal := []int{10, 10, 10, 8, 12, -1, -1, -1, -1, -1, -1, -1}
+	k := verifChoice(len(sizes))
+	payload := "NOOP\r\nNOOP\r\nNOOP\r\n" // 18 octets of which the chunk takes the first n
+	var got []byte
+	be := &vbackend{}
+	be.dataFn = func(_ *vsession, r io.Reader) error {
+		got, _ = verifReadAll(r, 4)
+		return nil
+	}
+	s, _ := verifServer(be)
+	in := "EHLO c\r\nMAIL FROM:<s@v>\r\nRCPT TO:<r@v>\r\nBDAT " + sizes[k] + " LAST\r\n" + payload
+	vc, _, _ := verifServe(s, []byte(in), io.EOF)
+	reps, wf := verifParseReplies(vc.out)
+	verifObserve("c05size", k, wf, len(reps), len(got))
+	verifAssert(wf && len(reps) >= 5, "C05.size-syntax-replies")
+	if !wf || len(reps) < 5 {
+		return
+	}
+	n := decimal[k]
+	if n >= 0 {
+		verifReach("C05.size-syntax-decimal")
+		verifAssert(reps[4].code == 250 && string(got) == payload[:n], "C05.size-syntax-declared-octets-delivered")
+		// what follows the chunk: payload[n:] - "OOP\r\nNOOP\r\n" (n=8: 500, 250), "\nNOOP\r\n"...
+		rest := payload[n:]
+		lines := 0
+		for i := 0; i < len(rest); i++ {
+			if rest[i] == '\n' {
+				lines++
+			}
+		}
+		verifAssert(len(reps) == 5+lines, "C05.size-syntax-exactly-the-declared-octets-consumed")
+	} else {
+		verifReach("C05.size-syntax-refused")
+		verifAssert(reps[4].code == 501 && be.count("Data") == 0, "C05.size-syntax-not-a-decimal-number-refused")
+	}
+}
